@@ -256,3 +256,8 @@ def run(ck):
     c12.r9_quoted_form_is_read_back(ck_alias(ck, "C01-R9"))
     # -R is the mirror image: wherever the direction selects between a pair of old/new things, Revert takes the other one (C16-R5)
     c16.r5(ck_alias(ck, "C01-R10"))
+    # what is written is B only if writing it does not destroy what is being written: under --mmap the unchanged lines of B are slices
+    # of the mapped old file, which stays intact because the file is replaced, never rewritten (C15-R1)
+    from . import c15 as _c15
+    from ..framework import RuleAlias as _RA
+    _c15.run(_RA(ck, lambda r: "C01-R11" if r == "C15-R1" else None))
